@@ -246,7 +246,7 @@ pub fn build(s: &ElfSpec) -> Built {
     let note_reachable = s.build_id.is_some() && ((s.has_phdrs && s.note_phdr) || (s.has_sections && s.note_section));
     let build_id = if note_reachable {
         s.build_id.clone()
-    } else if s.has_sections {
+    } else if s.has_sections && !s.text.is_empty() {
         Some(xor_fold(&s.text[..s.text.len().min(4096)]))
     } else {
         None
